@@ -433,13 +433,16 @@ inline std::string in_text(mpz_srcptr z, int base, bool upper, int sub) {  // ba
 static const char* const WS[] = { "", " ", "  \t", "\n " };
 inline int is_z(const Ctx& C, int which, int base, bool upper, int sub) {
   mpz_srcptr z = which == 0 ? C.a.v : which == 1 ? C.b.v : C.c.v;
-  std::string txt = std::string(WS[sub % 4]) + in_text(z, base, upper, sub) + " tail";
-  std::istringstream is(txt); set_in_base(is, base);
+  // in some cases the number is the last thing in the stream, and the stream throws on failbit / badbit (a valid number must neither fail nor throw)
+  bool at_end = sub % 5 == 0, exc = sub % 7 < 3;
+  std::string txt = std::string(WS[sub % 4]) + in_text(z, base, upper, sub) + (at_end ? "" : " tail");
+  std::istringstream is(txt); set_in_base(is, base); if (exc) is.exceptions(std::ios::failbit | std::ios::badbit);
   // the target's previous value varies: small, a multi-limb negative value, or another generated variable
   mpz_class x(12345); if ((sub >> 3) % 3 == 1) { x = 1; x <<= 200; x = -x - 77; } else if ((sub >> 3) % 3 == 2) x = mpz_class(which == 0 ? C.b.v : C.a.v);
   std::string tail;
-  RT_GO is >> x; RT_END
-  int bad = chki(is.fail(), 0, "fail") | chk(x, z, "value");
+  RT_GO try { is >> x; } catch (const std::ios_base::failure&) { RT_END return chki(1, 0, "ios_base::failure thrown while extracting a valid number"); } RT_END
+  int bad = chki(is.fail(), 0, "fail") | chk(x, z, "value"); is.exceptions(std::ios::goodbit);
+  if (at_end) return bad;
   is >> tail;
   return bad | chks(tail, "tail", "rest-of-stream");
 }
@@ -448,12 +451,14 @@ inline int is_q(const Ctx& C, int which, int base, bool upper, int sub) {
   std::string txt = std::string(WS[sub % 4]) + in_text(mpq_numref(v), base, upper, sub);
   bool with_den = mpz_cmp_ui(mpq_denref(v), 1) != 0 || (sub & 4);
   if (with_den) txt += "/" + in_text(mpq_denref(v), base, upper, sub / 3);   // base indicator read separately for num and den
-  std::istringstream is(txt + " tail"); set_in_base(is, base);
+  bool at_end = sub % 5 == 0, exc = sub % 7 < 3;
+  std::istringstream is(txt + (at_end ? "" : " tail")); set_in_base(is, base); if (exc) is.exceptions(std::ios::failbit | std::ios::badbit);
   // the target's previous value varies: small, a negative value over a multi-limb denominator, or another generated variable
   mpq_class x(7, 3); if ((sub >> 3) % 3 == 1) { mpz_class d(1); d <<= 130; d += 5; x = mpq_class(mpz_class(-9), d); } else if ((sub >> 3) % 3 == 2) x = mpq_class(which == 0 ? C.r.v : C.q.v);
   std::string tail;
-  RT_GO is >> x; RT_END
-  int bad = chki(is.fail(), 0, "fail") | chk(x, v, "value");
+  RT_GO try { is >> x; } catch (const std::ios_base::failure&) { RT_END return chki(1, 0, "ios_base::failure thrown while extracting a valid number"); } RT_END
+  int bad = chki(is.fail(), 0, "fail") | chk(x, v, "value"); is.exceptions(std::ios::goodbit);
+  if (at_end) return bad;
   is >> tail;
   return bad | chks(tail, "tail", "rest-of-stream");
 }
@@ -461,11 +466,13 @@ inline int is_f(const Ctx& C, int sidx, ul prec) {
   static const char* const S[] = { "1.5", "-0.25", "12345", "1e3", "-2.5e2", "0.125", "7.75e1", "0", "-3", "1024.0625", "6.5e4", "0.5e1" };
   const char* s = S[sidx % 12];
   F w(prec); if (mpf_set_str(w.v, s, 10) != 0) harness("is_f string");
-  std::istringstream is(std::string(WS[C.u1 % 4]) + s + " tail");
+  bool at_end = (C.u1 >> 2) % 3 == 0, exc = (C.u1 >> 4) % 2 == 0;
+  std::istringstream is(std::string(WS[C.u1 % 4]) + s + (at_end ? "" : " tail")); if (exc) is.exceptions(std::ios::failbit | std::ios::badbit);
   mpf_class x(99, prec); if (sidx / 12 % 2) { x = -1; x <<= 300; x -= 1; }   // previous value: small, or a long negative mantissa with a large exponent
   std::string tail;
-  RT_GO is >> x; RT_END
-  int bad = chki(is.fail(), 0, "fail") | chk(x, w.v, "value");
+  RT_GO try { is >> x; } catch (const std::ios_base::failure&) { RT_END return chki(1, 0, "ios_base::failure thrown while extracting a valid number"); } RT_END
+  int bad = chki(is.fail(), 0, "fail") | chk(x, w.v, "value"); is.exceptions(std::ios::goodbit);
+  if (at_end) return bad;
   is >> tail;
   return bad | chks(tail, "tail", "rest-of-stream");
 }
